@@ -10,6 +10,8 @@ package time
 import (
 	"sync"
 	stdtime "time"
+
+	"github.com/samber/ro/internal/verifrt/ctl"
 )
 
 type (
@@ -198,12 +200,19 @@ func fire(t *vtimer) {
 	at := base.Add(Duration(now))
 	mu.Unlock()
 	if fn != nil {
-		go fn()
+		if ctl.LibMode() {
+			ctl.Go(fn) // library goroutines are scheduled by the replay controller
+		} else {
+			go fn()
+		}
 	} else if ch != nil {
 		select {
 		case ch <- at:
 		default:
 		}
+	}
+	if ctl.LibMode() {
+		ctl.HPoint("quiesce") // the engine runs everything to quiescence after each firing
 	}
 	stdtime.Sleep(settleNS) // let the woken goroutines run
 	mu.Lock()
